@@ -187,8 +187,9 @@ def check(case: dict) -> dict:
                     (
                         1 if 'other-parameters' in where else 0,
                         n,
-                        f'differs:{field}:{where}',
-                        f'message {n} of {len(keys)} on session {name} ({KIND.get(key[1])} {key[2]}), previous message {before}{why}: {_first_difference(alone[field], here[field])}',
+                        # the same bytes under other parameters: whichever field shows it first, the suspect is one (a cache keyed by bytes)
+                        f'differs:{where}' if 'other-parameters' in where else f'differs:{field}:{where}',
+                        f'message {n} of {len(keys)} on session {name} ({KIND.get(key[1])} {key[2]}), previous message {before}{why}: {field}: {_first_difference(alone[field], here[field])}',
                     )
                 )
                 break
